@@ -280,7 +280,11 @@ class Checker:
         for oi, (okind, yo) in enumerate(obs):
             chi2, err, w, lo, hi = orc.eval(by, yo)      # in the order of the stored database
             full = stats(bx, w, lo, hi, n)
-            for x2 in case["x2"]:
+            # history: the same observation is evaluated on the same object under every cut, tight -> loose -> unrestricted
+            # and back to tight: each call must depend on its own x2_max only
+            nonneg = sorted(v for v in case["x2"] if v >= 0)
+            x2seq = nonneg + [v for v in case["x2"] if v < 0] + nonneg[::-1]      # tightest cut first
+            for x2 in x2seq:
                 oid = {"case": case, "ordering": tag, "obs": oi, "obs_kind": okind, "x2_max": x2}
                 self.ctx.cov["evaluations"] += 1
                 self.check_obs(b, oid, n, m, bx, by, proj, pc1, pc1_e, xinds, yo, x2, chi2, err, w, lo, hi, full,
